@@ -154,8 +154,8 @@ def nativeAwaitB {ι : Type} (I : Obj ι) : Body where
     | .send v => ((I.send s v).1, normStop (I.send s v).2)
     | .throw .genExit =>
       match I.close s with
-      | (s', .ret _) => (s', .raise .genExit)
-      | (s', o) => (s', o)
+      | (s', .raise e) => (s', .raise e)               -- close() raised: that is raised at the await
+      | (s', _) => (s', .raise .genExit)               -- close() returned (its value is ignored)
     | .throw e => ((I.throw s e).1, normStop (I.throw s e).2)
 
 def nativeAwaitO {ι : Type} (I : Obj ι) : Obj ι := coroObj (nativeAwaitB I) I.view
@@ -174,8 +174,8 @@ def relay {σ : Type} (r : σ × Out) : (Pc × σ) × Out := ((.loop, r.1), norm
 /-- `except GeneratorExit: coro.close(); raise` -/
 def relayClose {σ : Type} (r : σ × Out) : (Pc × σ) × Out :=
   match r with
-  | (s', .ret _) => ((.loop, s'), .raise .genExit)
-  | (s', o) => ((.loop, s'), o)                       -- close() itself raised: that propagates
+  | (s', .raise e) => ((.loop, s'), .raise e)         -- close() itself raised: that propagates
+  | (s', _) => ((.loop, s'), .raise .genExit)         -- close() returned; `raise`
 
 def coroIterB {ι : Type} (I : Obj ι) : Body where
   σ := Pc × I.σ
@@ -418,8 +418,8 @@ def monitorAsendB {ι : Type} (I : Obj ι) (data : Val) (mon0 : Int) : Body wher
     | .loop, .send v => fin (I.send st.coro v)
     | .loop, .throw .genExit =>
       match I.close st.coro with
-      | (s', .ret _) => ({ pc := .loop, mon := 0, coro := s' }, .raise .genExit)
-      | (s', o) => ({ pc := .loop, mon := 0, coro := s' }, o)
+      | (s', .raise e) => ({ pc := .loop, mon := 0, coro := s' }, .raise e)
+      | (s', _) => ({ pc := .loop, mon := 0, coro := s' }, .raise .genExit)
     | .loop, .throw e => fin (I.throw st.coro e)
 
 def monitorAsendO {ι : Type} (I : Obj ι) (data : Val) (mon0 : Int) : Obj ι :=
